@@ -137,7 +137,7 @@ func upgradeValue(from *evalValue.Value) *value.Value {
 
 		return value.NewValueAnyObject(newFields)
 	case evalValue.ObjectValueKind:
-		obj := (*from).(evalValue.ValueAnyObject).FieldsInternal
+		obj := (*from).(evalValue.ValueObject).FieldsInternal
 
 		newFields := make(map[string]*value.Value)
 
